@@ -106,7 +106,8 @@ def generate(rng, tier):
 
 def judge(case, ir, mr):
     tags = ['files=%d' % len(case['files'])] + (['probe=' + case['probe']] if case.get('probe') else [])
-    bad, actual, det = LB.base_judge(case, ir, mr, tags)
+    mr, mt = LB.split(mr)
+    bad, actual, det = LB.base_judge(case, ir, mr, tags, mt)
     if bad:
         return bad
     defs = {}
